@@ -170,6 +170,8 @@ func c03Worker(args []string) {
 		out.Flush()
 	case "c03lin":
 		c03LinearChild(args[1:])
+	case "live":
+		liveWorker(args[1:])
 	default:
 		os.Exit(2)
 	}
